@@ -328,23 +328,38 @@ Proof.
 Qed.
 
 (* the status machine, whole runs: an encrypt/decrypt call is served iff a key of the right size and an IV were given before *)
-Lemma cbc_ctl_state_spec ks ops : forall k i,
+Lemma cbc_ctl_state_spec ks ops : 0 < ks -> forall k i,
   cbc_ctl_state ks (k, i) ops = (k || keyed ks ops, i || ived ops).
 Proof.
-  induction ops as [|op r IH]; intros k i; [cbn; rewrite !orb_false_r; reflexivity|].
+  intros Hks. induction ops as [|op r IH]; intros k i; [cbn; rewrite !orb_false_r; reflexivity|].
   cbn [cbc_ctl_state keyed ived existsb]. fold (keyed ks r). fold (ived r).
   destruct op as [n|n| | |]; cbn [cbc_ctl_step].
-  - destruct (n =? ks); cbn [snd]; rewrite IH; cbn [orb]; rewrite ?orb_true_r; reflexivity.
+  - destruct k; cbn [snd]; [rewrite IH; reflexivity|].
+    destruct (N.eqb_spec n ks) as [->|Hn]; cbn [snd]; [|rewrite IH; reflexivity].
+    replace (ks =? 0) with false by (symmetry; apply N.eqb_neq; lia). cbn [negb]. rewrite IH. reflexivity.
   - destruct (n =? 16); cbn [snd]; rewrite IH; cbn [orb]; rewrite ?orb_true_r; reflexivity.
   - cbn [snd]. rewrite IH. cbn [orb]. rewrite ?orb_true_r. reflexivity.
   - destruct k, i; cbn [negb snd]; rewrite IH; reflexivity.
   - destruct k, i; cbn [negb snd]; rewrite IH; reflexivity.
 Qed.
-Lemma cbc_ctl_served ks before :
+Lemma cbc_ctl_served ks before : 0 < ks ->
   fst (cbc_ctl_step ks (cbc_ctl_state ks (false, false) before) OpEnc) = StOk <-> (keyed ks before = true /\ ived before = true).
 Proof.
-  rewrite cbc_ctl_state_spec. cbn [orb]. rewrite cbc_ctl_enc_ok.
+  intros Hks. rewrite cbc_ctl_state_spec by exact Hks. cbn [orb]. rewrite cbc_ctl_enc_ok.
   split; [intros H; injection H as H1 H2; auto|intros [H1 H2]; rewrite H1, H2; reflexivity].
+Qed.
+(* once a key is in place every further set_key - whatever its size - is refused and changes nothing *)
+Lemma cbc_ctl_key_twice ks i n : cbc_ctl_step ks (true, i) (OpKey n) = (StKeyTwice, (true, i)).
+Proof. reflexivity. Qed.
+(* ... and set_key is the only call that is ever answered StKeyTwice, and only on a keyed object *)
+Lemma cbc_ctl_key_twice_only ks st op : fst (cbc_ctl_step ks st op) = StKeyTwice -> fst st = true /\ exists n, op = OpKey n.
+Proof.
+  destruct st as [k i]. destruct op as [n|n| | |]; cbn [cbc_ctl_step fst].
+  - destruct k; [intros _; split; [reflexivity|exists n; reflexivity]|]. destruct (n =? ks); cbn [fst]; discriminate.
+  - destruct (n =? 16); cbn [fst]; discriminate.
+  - discriminate.
+  - destruct k, i; cbn [negb fst]; discriminate.
+  - destruct k, i; cbn [negb fst]; discriminate.
 Qed.
 
 (* =====================================================================================
